@@ -173,9 +173,25 @@ func c18Names(seq []int) []string {
 
 func c18RunSeq(c *fw.Ctx, seq []int, checkEvery bool) {
 	p, v, stk := fw.Recover(func() {
+		// a builder is a plain exported struct: callers also make it without the constructor (new, a literal, a
+		// variable, a field of their own struct); the origin is a pure function of the sequence
 		st := of.NewCTStates()
+		origin := "NewCTStates"
+		switch prng.Hash64([]byte(fmt.Sprint("origin", seq))) % 5 {
+		case 1:
+			st, origin = new(of.CTStates), "new(CTStates)"
+		case 2:
+			st, origin = &of.CTStates{}, "&CTStates{}"
+		case 3:
+			var holder struct {
+				pad [3]byte
+				b   of.CTStates
+			}
+			st, origin = &holder.b, "embedded-by-value"
+		}
+		c.Set("builder_origins", origin)
 		var m ctModel
-		last := "NewCTStates"
+		last := origin
 		if checkEvery || len(seq) == 0 {
 			c18Check(c, st, &m, last, nil)
 		}
